@@ -99,6 +99,9 @@ class QuicConnectionProtocol(asyncio.DatagramProtocol):
         """
         Ping the peer and wait for the response.
         """
+        if self._closed.is_set():
+            # the connection is terminated: nothing will ever answer
+            raise ConnectionError
         waiter = self._loop.create_future()
         uid = id(waiter)
         self._ping_waiters[uid] = waiter
@@ -142,6 +145,9 @@ class QuicConnectionProtocol(asyncio.DatagramProtocol):
         """
         assert self._connected_waiter is None, "already awaiting connected"
         if not self._connected:
+            if self._closed.is_set():
+                # the connection is terminated: the handshake will never complete
+                raise ConnectionError
             self._connected_waiter = self._loop.create_future()
             await asyncio.shield(self._connected_waiter)
 
